@@ -512,3 +512,170 @@ Proof.
     specialize (C v Hv). specialize (V v). destruct (e v) as [[s|z|l]|]; cbn [strs_of]; try discriminate; try congruence.
     destruct V as [V _]. exact V.
 Qed.
+
+(* ---------- the converse: a text that round-trips is canonical ---------- *)
+Definition lff (l : str) : Prop := mem 10 l = false.
+Lemma split_on_term_lff ls : Forall lff ls -> split_on 10 (term_lines ls) = ls ++ [[]].
+Proof.
+  induction 1 as [|l ls H1 _ IH]; [reflexivity|]. unfold term_lines in *. cbn [map concat app].
+  rewrite <- app_assoc. cbn [app]. rewrite split_on_line by exact H1. rewrite IH. reflexivity.
+Qed.
+Lemma lines_term_lff ls : Forall lff ls -> lines (term_lines ls) = map strip_cr ls.
+Proof.
+  intros H. unfold lines. rewrite split_on_term_lff by auto. rewrite removelast_last, last_last. cbn. rewrite app_nil_r. reflexivity.
+Qed.
+Lemma split_on_lff c s : Forall (fun p => mem c p = false) (split_on c s).
+Proof.
+  induction s as [|x s IH]; cbn [split_on]; [repeat constructor|].
+  destruct (x =? c) eqn:E; [constructor; [reflexivity|exact IH]|].
+  destruct (split_on c s) as [|p ps]; [repeat constructor; cbn [mem]; rewrite E; reflexivity|].
+  inversion IH as [|? ? Hp Hps]; subst. constructor; [cbn [mem]; rewrite E, Hp; reflexivity|exact Hps].
+Qed.
+Lemma strip_cr_spec l : (strip_cr l = l /\ (forall r, l <> r ++ [13])) \/ (l = strip_cr l ++ [13]).
+Proof.
+  unfold strip_cr. rewrite frev_eq. destruct (List.rev l) as [|c r] eqn:E.
+  - left. split; auto. intros r0 ->. rewrite rev_app_distr in E. discriminate.
+  - assert (l = List.rev r ++ [c]) as Hl by (rewrite <- (rev_involutive l), E; reflexivity).
+    destruct (N.eq_dec c 13) as [->|Hn].
+    + right. rewrite frev_eq. exact Hl.
+    + left. split.
+      * destruct c as [|p]; auto. repeat (destruct p as [p|p|]; auto); congruence.
+      * intros r0 ->. rewrite rev_app_distr in E. cbn in E. congruence.
+Qed.
+Lemma strip_cr_lff l : lff l -> lff (strip_cr l).
+Proof.
+  intros H. destruct (strip_cr_spec l) as [[-> _]|E]; auto.
+  unfold lff in *. rewrite E, mem_app in H. apply orb_false_elim in H as [H _]. exact H.
+Qed.
+Lemma lines_lff t : Forall lff (lines t).
+Proof.
+  unfold lines. apply Forall_app. split.
+  - apply Forall_forall. intros l Hl. apply in_map_iff in Hl as (p & <- & Hp). apply strip_cr_lff.
+    pose proof (split_on_lff 10 t) as F. rewrite Forall_forall in F. apply F.
+    clear -Hp. induction (split_on 10 t) as [|a r IH]; [destruct Hp|]. cbn [removelast] in Hp. destruct r; [destruct Hp|].
+    destruct Hp as [->|Hp]; [left; reflexivity|right; apply IH; exact Hp].
+  - pose proof (split_on_lff 10 t) as F. destruct (last (split_on 10 t) []) as [|c r] eqn:E; [constructor|].
+    constructor; [|constructor]. rewrite <- E. rewrite Forall_forall in F. apply F.
+    pose proof (split_on_nonnil 10 t) as Hn. destruct (split_on 10 t) as [|a q]; [congruence|].
+    clear -q. revert a. induction q as [|b q IH]; intros a; [left; reflexivity|]. right. apply IH.
+Qed.
+Lemma parse_i64_range s z : parse_i64 s = Some z -> (i64min <= z <= i64max)%Z.
+Proof.
+  rewrite parse_i64_eq. unfold parse_i64_spec.
+  destruct (match s with 45 :: ds => option_map Z.opp (parse_digits ds) | 43 :: ds => parse_digits ds | _ => parse_digits s end) as [v|]; [|discriminate].
+  destruct ((i64min <=? v)%Z && (v <=? i64max)%Z) eqn:E; [|discriminate]. intros [= <-].
+  apply andb_prop in E as [A B]. apply Z.leb_le in A. apply Z.leb_le in B. lia.
+Qed.
+Definition sizes_ok (e : entry) : Prop :=
+  forall v, match e v with Some (VI z) => (i64min <= z <= i64max)%Z | Some (VA l) => l <> [] | _ => True end.
+Lemma printed_canonical_lines e : wk e -> sizes_ok e -> complete e -> canonical_lines (printed_lines e) = true.
+Proof.
+  intros W V C. unfold canonical_lines. rewrite !andb_true_iff. repeat split.
+  - apply forallb_forall. intros l Hl. unfold printed_lines in Hl. apply in_flat_map in Hl as (v & _ & Hl).
+    apply in_map_iff in Hl as (x & <- & Hx). unfold line_canon. rewrite line_kv_kv.
+    destruct (kind_of v) eqn:K; auto. specialize (W v). specialize (V v).
+    destruct (e v) as [[s|z|l]|]; try congruence; cbn [strs_of] in Hx; try destruct Hx as [<-|[]]; try destruct Hx.
+    rewrite parse_print_i64 by exact V. apply eqs_refl.
+  - unfold grouped. rewrite andb_true_iff. split.
+    + replace (flat_map (fun v => lines_of v (printed_lines e)) all_vars) with (printed_lines e); [apply eql_refl|].
+      unfold printed_lines at 1. apply flat_map_ext. intros v. rewrite lines_of_vals, vals_of_printed. reflexivity.
+    + apply forallb_forall. intros v _. destruct (kind_of v) eqn:K; auto;
+      rewrite lines_of_vals, map_length, vals_of_printed; specialize (W v);
+      destruct (e v) as [[s|z|l]|]; try congruence; reflexivity.
+  - apply forallb_forall. intros v Hv. apply present_has_var. unfold present. rewrite vals_of_printed.
+    specialize (C v Hv). specialize (V v). destruct (e v) as [[s|z|l]|]; cbn [strs_of]; try discriminate; try congruence.
+Qed.
+(* what parsing produces is well-kinded, with sizes in range and non-empty lists *)
+Lemma collect_wk ls : wk (fun v => collect v ls) /\ sizes_ok (fun v => collect v ls).
+Proof.
+  split; intros v; unfold collect; destruct (vals_of v ls) as [|x r]; auto; destruct (kind_of v) eqn:K; cbn; auto; try discriminate.
+  - destruct (parse_i64 (last r x)); cbn; auto.
+  - destruct (parse_i64 (last r x)) eqn:P; cbn; auto. apply parse_i64_range in P. exact P.
+Qed.
+Lemma strip_cr_snoc a : strip_cr (a ++ [13]) = a.
+Proof. unfold strip_cr. rewrite frev_eq, rev_app_distr. cbn [List.rev app]. rewrite frev_eq, rev_involutive. reflexivity. Qed.
+Lemma strip_cr_id l : (forall r, l <> r ++ [13]) -> strip_cr l = l.
+Proof. intros H. destruct (strip_cr_spec l) as [[E _]|E]; auto. exfalso. apply (H _ E). Qed.
+Lemma strip_cr_app p x : x <> [] -> strip_cr (p ++ x) = p ++ strip_cr x.
+Proof.
+  intros Hx. destruct (strip_cr_spec x) as [[E Hn]|E].
+  - rewrite E. apply strip_cr_id. intros r Hr.
+    destruct (exists_last Hx) as (x' & c & ->). rewrite app_assoc in Hr. apply app_inj_tail in Hr as [_ ->]. apply (Hn x'). reflexivity.
+  - remember (strip_cr x) as y eqn:Hy. rewrite E, app_assoc. apply strip_cr_snoc.
+Qed.
+Lemma kv_strip v x : strip_cr (kv_line v x) = kv_line v (strip_cr x).
+Proof.
+  unfold kv_line. destruct x as [|c x'].
+  - change (strip_cr []) with (@nil N). apply strip_cr_id. intros r Hr.
+    change (vname v ++ [61]) with (vname v ++ [61]) in Hr. apply app_inj_tail in Hr as [_ Hr]. discriminate.
+  - change (vname v ++ 61 :: c :: x') with (vname v ++ [61] ++ (c :: x')). rewrite app_assoc, strip_cr_app by discriminate.
+    rewrite <- app_assoc. reflexivity.
+Qed.
+Lemma map_app_map {A B} (f : A -> B) (g : B -> B) l : map g (map f l) = map (fun x => g (f x)) l.
+Proof. apply map_map. Qed.
+Lemma vals_of_strip_kv v w xs : vals_of v (map strip_cr (map (kv_line w) xs)) = if var_eqb w v then map strip_cr xs else [].
+Proof.
+  unfold vals_of. induction xs as [|x xs IH]; cbn [map flat_map]; [destruct (var_eqb w v); reflexivity|].
+  rewrite kv_strip, line_kv_kv, IH. destruct (var_eqb w v); reflexivity.
+Qed.
+Lemma map_flat_map {A B C} (g : B -> C) (f : A -> list B) l : map g (flat_map f l) = flat_map (fun a => map g (f a)) l.
+Proof. induction l as [|a l IH]; cbn [flat_map map]; auto. rewrite map_app, IH. reflexivity. Qed.
+Lemma vals_of_strip_printed e v : vals_of v (map strip_cr (printed_lines e)) = map strip_cr (strs_of (e v)).
+Proof.
+  unfold printed_lines. rewrite map_flat_map, vals_of_flat_map. rewrite (flat_map_single _ v).
+  - rewrite vals_of_strip_kv, var_eqb_refl. reflexivity.
+  - intros w N. rewrite vals_of_strip_kv. destruct (var_eqb_spec w v); congruence.
+Qed.
+Lemma map_fix {A} (f : A -> A) l : map f l = l -> forall x, In x l -> f x = x.
+Proof. induction l as [|a l IH]; intros H x Hx; [destruct Hx|]. cbn [map] in H. injection H as H1 H2.
+  destruct Hx as [<-|Hx]; auto. Qed.
+Lemma vals_lff v ls : Forall lff ls -> Forall lff (vals_of v ls).
+Proof.
+  intros F. apply Forall_forall. intros x Hx. unfold vals_of in Hx. apply in_flat_map in Hx as (l & Hl & Hx).
+  destruct (line_kv l) as [[w y]|] eqn:E; [|destruct Hx]. destruct (var_eqb w v); [|destruct Hx]. destruct Hx as [<-|[]].
+  apply line_kv_inv in E. rewrite Forall_forall in F. specialize (F l Hl). unfold lff in *. rewrite E in F. unfold kv_line in F.
+  rewrite mem_app in F. apply orb_false_elim in F as [_ F]. cbn [mem] in F. apply orb_false_elim in F as [_ F]. exact F.
+Qed.
+Theorem round_trip_canonical t e : parse_entry t = Val e -> print_entry e = t -> is_canonical t = true.
+Proof.
+  intros Pe Pr.
+  pose proof (parse_entry_semantics t e Pe) as Sem.
+  assert (is_val (parse_entry t) = true) as Hv by (rewrite Pe; reflexivity).
+  apply parse_entry_accept_iff in Hv as [Hok Hreq].
+  pose proof (lines_lff t) as Lf.
+  remember (lines t) as ls eqn:Els.
+  assert (forall v, Forall lff (strs_of (e v))) as Sl.
+  { intros v. rewrite Sem. unfold collect. destruct (vals_of v ls) as [|x r] eqn:E; [constructor|].
+    assert (Forall lff (x :: r)) as Fv by (rewrite <- E; apply vals_lff; exact Lf).
+    destruct (kind_of v).
+    - cbn. constructor; [|constructor]. rewrite Forall_forall in Fv. apply Fv. apply last_in.
+    - destruct (parse_i64 (last r x)); cbn; [|constructor]. constructor; [|constructor]. apply print_z_clean.
+    - cbn. exact Fv. }
+  assert (Forall lff (printed_lines e)) as Pl.
+  { apply Forall_forall. intros l Hl. unfold printed_lines in Hl. apply in_flat_map in Hl as (v & _ & Hl).
+    apply in_map_iff in Hl as (x & <- & Hx). specialize (Sl v). rewrite Forall_forall in Sl. specialize (Sl x Hx).
+    unfold lff, kv_line in *. rewrite mem_app. destruct (vname_no_nl v) as [-> _]. cbn [mem]. change (61 =? 10) with false. exact Sl. }
+  assert (ls = map strip_cr (printed_lines e)) as Hls.
+  { rewrite Els, <- Pr, print_entry_lines. apply lines_term_lff. exact Pl. }
+  assert (forall v, map strip_cr (strs_of (e v)) = strs_of (e v)) as Fix.
+  { intros v. pose proof (vals_of_strip_printed e v) as Hvs. rewrite <- Hls in Hvs.
+    rewrite (Sem v). rewrite (Sem v) in Hvs. unfold collect in *. destruct (vals_of v ls) as [|x r] eqn:E; [reflexivity|].
+    destruct (kind_of v).
+    - cbn [strs_of map] in *. destruct r; [|discriminate]. cbn [last] in *. injection Hvs as Hx. rewrite <- Hx. reflexivity.
+    - destruct (parse_i64 (last r x)); cbn [option_map strs_of map] in *; [|reflexivity].
+      rewrite strip_cr_clean; [reflexivity|apply print_z_clean].
+    - cbn [strs_of] in *. symmetry. exact Hvs. }
+  assert (map strip_cr (printed_lines e) = printed_lines e) as Hid.
+  { unfold printed_lines. rewrite map_flat_map. apply flat_map_ext. intros v. rewrite map_map.
+    apply map_ext_in. intros x Hx. rewrite kv_strip. f_equal. apply (map_fix _ _ (Fix v)). exact Hx. }
+  rewrite Hid in Hls.
+  unfold is_canonical. rewrite <- Els, Hls. rewrite andb_true_iff. split.
+  - apply eqs_eq. rewrite <- Pr. apply print_entry_lines.
+  - destruct (collect_wk ls) as [W V]. apply printed_canonical_lines.
+    + intros v. specialize (W v). cbn beta in W. rewrite Sem. exact W.
+    + intros v. specialize (V v). cbn beta in V. rewrite Sem. exact V.
+    + intros v Hin. rewrite Sem. intros Hn. apply collect_none_iff in Hn; [|exact Hok]. apply (Hreq v Hin). exact Hn.
+Qed.
+(* the syntactic predicate decides exactly the texts that round-trip *)
+Theorem canonical_iff t : is_canonical t = true <-> exists e, parse_entry t = Val e /\ print_entry e = t.
+Proof. split; [apply canonical_print_parse|intros (e & A & B); exact (round_trip_canonical t e A B)]. Qed.
